@@ -1098,7 +1098,8 @@ pub mod implementations {
 
         let variable = PrimitiveFlagsPair::new(arg, VariableFlags(READ_ONLY));
 
-        ctx.register_export(export_name.to_owned(), variable.clone())?;
+        // a class declared inside a function is declared again on every call: the new registration replaces the earlier one
+        ctx.register_export_replacing(export_name.to_owned(), variable.clone())?;
         ctx.ref_variable(Cow::Owned(name.to_owned()), variable);
 
         Ok(())
